@@ -315,13 +315,18 @@ def CmpOp.relational : CmpOp → Bool
   | .eq | .ne => false
   | _ => true
 
+/-- operand of a relational operator when the other operand is a boolean: a node set is
+    converted to a boolean as a whole, then everything to a number -/
+def relOperand (v : Val) : XNum :=
+  match v with
+  | .attrs _ | .none => XNum.ofBool v.asBool
+  | v => v.asFloat
+
 /-- `_compare` of path.py -/
 def compare (op : CmpOp) (l r : Val) : Bool :=
   let rel := op.relational
   if l.isBool || r.isBool then
-    let lb := l.asBool
-    let rb := r.asBool
-    if rel then numOp op (XNum.ofBool lb) (XNum.ofBool rb) else eqOp op (lb == rb)
+    if rel then numOp op (relOperand l) (relOperand r) else eqOp op (l.asBool == r.asBool)
   else if l.isNone || r.isNone then
     !rel && eqOp op (l.isNone && r.isNone)
   else
